@@ -468,6 +468,13 @@ func pdfOf(d *ldoc) []byte {
 	return pdfw.Write(doc, pdfw.Layout{}).Bytes
 }
 
+type refRun struct {
+	u, f []string
+	ok   bool
+}
+
+var refCache map[string]*refRun
+
 func partB(e *harness.Env) {
 	dir := harness.Scratch()
 	defer os.RemoveAll(dir)
@@ -483,6 +490,7 @@ func partB(e *harness.Env) {
 						var d *ldoc
 						var data []byte
 						written := false
+						refCache = map[string]*refRun{} // all-pages reference results of this document, per mode and API
 						for _, sub := range subsets(P) {
 							for _, mode := range []string{"headers", "footers", "both"} {
 								for _, api := range apis {
@@ -630,6 +638,12 @@ func checkPDF(d *ldoc, path string, sub []int, mode string, api apiFn) (sig, det
 	if len(req) < d.P {
 		// reference for the selection-independence clause: the same call on all pages
 		ref = func() ([]string, []string, bool) {
+			k := mode + "/" + api.name
+			if r := refCache[k]; r != nil {
+				return r.u, r.f, r.ok
+			}
+			r := &refRun{}
+			refCache[k] = r
 			ua, err := api.run(tabula.Open(path))
 			if err != nil {
 				return nil, nil, false
@@ -638,7 +652,8 @@ func checkPDF(d *ldoc, path string, sub []int, mode string, api apiFn) (sig, det
 			if err != nil {
 				return nil, nil, false
 			}
-			return toks(ua), toks(fa), true
+			r.u, r.f, r.ok = toks(ua), toks(fa), true
+			return r.u, r.f, true
 		}
 	}
 	return judgeTokens(d, mode, req, U, F, ref)
@@ -735,6 +750,18 @@ func judgeTokens(d *ldoc, mode string, req map[int]bool, U, F []string, ref func
 		refState = 1
 		return true
 	}
+	// lines that are optional only because the single-side mode does not cover their band are left out of the
+	// selection-independence clause (the both-sides mode judges them through clause 4 on every selection anyway)
+	var expBoth map[string]*expect
+	optionalInEveryMode := func(t string) bool {
+		if mode == "both" {
+			return true
+		}
+		if expBoth == nil {
+			expBoth = d.expectations("both", req)
+		}
+		return expBoth[t] != nil && expBoth[t].must == 0
+	}
 	for _, key := range keys {
 		t := strings.Join(key, " ")
 		x := exp[t]
@@ -781,7 +808,7 @@ func judgeTokens(d *ldoc, mode string, req map[int]bool, U, F []string, ref func
 		}
 		// selection independence: every instance of this text is removable but none is required; the all-pages
 		// result treats all its instances alike -> the partial selection has to treat them the same way
-		if ref != nil && cU[t] == x.n && x.may == x.n && x.must == 0 && loadRef() {
+		if ref != nil && cU[t] == x.n && x.may == x.n && x.must == 0 && optionalInEveryMode(t) && loadRef() {
 			if ra := refExp[t]; ra != nil && refU[t] == ra.n && ra.n > 0 {
 				delAll := refU[t] - refF[t]
 				switch {
